@@ -402,6 +402,24 @@ fn short_node(n: &RNode) -> String {
     }
 }
 
+/// a frame handed to the deallocator belongs to the allocator from that moment: what the deallocator left in it (here: a
+/// poison pattern) is still there when the call returns, unless the same call was given the frame again
+fn released_frames_untouched(env: &Env, op: &Op, rep: &mut Report) {
+    let st = env.arena.st();
+    let kname = env.kind.name();
+    for (i, copy) in st.poison_copy.iter() {
+        if st.role[*i] != Role::Free {
+            continue;
+        }
+        if let Some(k) = (0..512).find(|&k| st.read(*i, k) != copy[k]) {
+            let ph = st.phys[*i];
+            viol(rep, env, "C09", format!("{}|{}|wrote-to-a-frame-after-handing-it-to-the-deallocator", kname, op.name()), op, vec![("frame", J::hex(ph)), ("slot", J::U(k as u64)), ("left_by_deallocator", J::hex(copy[k])), ("found", J::hex(st.read(*i, k))), ("profile", J::s(crate::util::profile_name()))]);
+            viol(rep, env, "C10", format!("{}|{}|wrote-to-a-frame-after-handing-it-to-the-deallocator", kname, op.name()), op, vec![("frame", J::hex(ph)), ("slot", J::U(k as u64))]);
+            break;
+        }
+    }
+}
+
 /// the accessors of the three mappers hand out the table / parameters the mapper was built on
 fn accessors(env: &Env, rep: &mut Report) {
     let root = env.arena.root_ptr() as usize;
@@ -1009,6 +1027,7 @@ fn step_desynced(env: &mut Env, op: &Op, rep: &mut Report, r: &mut Rng, mon: &Mo
     let mut st = env.arena.st();
     let post = hwwalk::dump_skip(&st, root, env.rec);
     if is_clean {
+        released_frames_untouched(env, op, rep); // (before check_cleanup, which repeats the call)
         check_cleanup(env, op, &pre_dump, &post, &log, rep);
     }
     // model-free failure atomicity (C02): a call that reports an error - or only answers a question - leaves every
@@ -1157,6 +1176,7 @@ fn step_synced(env: &mut Env, op: &Op, fail: Fail, rep: &mut Report, r: &mut Rng
     rep.count("dumps_compared", 1);
     rep.count("table_entries_read", post.entries_read);
     if is_clean {
+        released_frames_untouched(env, op, rep); // (before check_cleanup, which repeats the call)
         if check_cleanup(env, op, pre_dump.as_ref().unwrap(), &post, &log, rep) {
             violated = true;
         }
